@@ -277,7 +277,9 @@ fn reads_something(p: &Prog) -> bool { has_op(p, |o| matches!(o, Op::Read(..))) 
 #[derive(Clone, Debug)]
 pub struct Group { pub enums: Vec<EnumCfg>, pub depth: usize, pub shapes: bool, pub gen_consumer_only: bool, pub crashes: usize, pub inject: bool, pub max_roots: Option<usize>, pub faulty: bool, pub slice: Option<Slice>, pub families: bool,
   /// staged exploration over the order family: depth of the graph-building first stage
-  pub staged: Option<usize> }
+  pub staged: Option<usize>,
+  /// declared writes bypass `create_writer` (the task produces the content by other means, then calls `written_to`)
+  pub direct: bool }
 
 /// Some task writes a resource that a different task reads (generator/consumer structure).
 pub fn gen_consumer(p: &Prog) -> bool {
@@ -306,7 +308,7 @@ pub fn run(args: &Args) -> i32 {
   let mut cfg = HistCfg {
     prop, max_roots: 2, bottom_up: true, bu_then: false, bu_pre: false, bu_over_report: false, bu_twice: false, bu_split: false, keep_session: false, set_fail: false, crashes: 0,
     depth: 0, state_cap: 0, probe: false, scope_in_key: true,
-    wall_cap: if quick { 45.0 } else { 2400.0 }, collect_digests: false, find_path_hash: None, stamp_fail: false, stage1: 0,
+    wall_cap: if quick { 45.0 } else { 2400.0 }, collect_digests: false, find_path_hash: None, stamp_fail: false, stage1: 0, decl_direct: false,
   };
   let mut slice = Slice::Wf;
   let mut map_faulty = false;
@@ -339,16 +341,16 @@ pub fn run(args: &Args) -> i32 {
   let cw = |n: usize, r: u8, k: usize| { let mut e = EnumCfg::structural(n, r, k); e.ocs = vec![OC::Equals, OC::PieAlways]; e.write_rcs = vec![RC::Exact, RC::Exists]; e };
   let mut groups: Vec<Group> = if quick {
     vec![
-      Group { enums: vec![s(2, 2, 3)], depth: 5, shapes: true, gen_consumer_only: false, crashes: 0, inject: false, max_roots: None, faulty: false, slice: None, families: false, staged: None },
-      Group { enums: vec![s(3, 2, 2), rich(2, 2, 2)], depth: 4, shapes: false, gen_consumer_only: false, crashes: 0, inject: false, max_roots: None, faulty: false, slice: None, families: false, staged: None },
+      Group { enums: vec![s(2, 2, 3)], depth: 5, shapes: true, gen_consumer_only: false, crashes: 0, inject: false, max_roots: None, faulty: false, slice: None, families: false, staged: None, direct: false },
+      Group { enums: vec![s(3, 2, 2), rich(2, 2, 2)], depth: 4, shapes: false, gen_consumer_only: false, crashes: 0, inject: false, max_roots: None, faulty: false, slice: None, families: false, staged: None, direct: false },
       // generator/consumer programs one statement larger (conditional generators with an always-consistent require)
-      Group { enums: vec![s(2, 2, 4)], depth: 4, shapes: false, gen_consumer_only: true, crashes: 0, inject: false, max_roots: None, faulty: false, slice: None, families: false, staged: None },
+      Group { enums: vec![s(2, 2, 4)], depth: 4, shapes: false, gen_consumer_only: true, crashes: 0, inject: false, max_roots: None, faulty: false, slice: None, families: false, staged: None, direct: false },
     ]
   } else {
     vec![
-      Group { enums: vec![s(2, 2, 4), rich(2, 2, 3)], depth: 6, shapes: true, gen_consumer_only: false, crashes: 0, inject: false, max_roots: None, faulty: false, slice: None, families: false, staged: None },
-      Group { enums: vec![s(3, 2, 3), s(3, 3, 3)], depth: 5, shapes: false, gen_consumer_only: false, crashes: 0, inject: false, max_roots: None, faulty: false, slice: None, families: false, staged: None },
-      Group { enums: vec![s(4, 2, 3)], depth: 4, shapes: false, gen_consumer_only: false, crashes: 0, inject: false, max_roots: None, faulty: false, slice: None, families: false, staged: None },
+      Group { enums: vec![s(2, 2, 4), rich(2, 2, 3)], depth: 6, shapes: true, gen_consumer_only: false, crashes: 0, inject: false, max_roots: None, faulty: false, slice: None, families: false, staged: None, direct: false },
+      Group { enums: vec![s(3, 2, 3), s(3, 3, 3)], depth: 5, shapes: false, gen_consumer_only: false, crashes: 0, inject: false, max_roots: None, faulty: false, slice: None, families: false, staged: None, direct: false },
+      Group { enums: vec![s(4, 2, 3)], depth: 4, shapes: false, gen_consumer_only: false, crashes: 0, inject: false, max_roots: None, faulty: false, slice: None, families: false, staged: None, direct: false },
     ]
   };
   let filter: Box<dyn Fn(&Prog) -> bool> = Box::new(|p| reads_something(p));
@@ -358,21 +360,21 @@ pub fn run(args: &Args) -> i32 {
       cfg.probe = prop == Prop::C03; cfg.bu_over_report = true; cfg.bu_then = true; cfg.bu_twice = true; cfg.bu_pre = true; cfg.max_roots = if quick { 1 } else { 2 };
       // named shapes and the transitive template family with two roots per session (creation orders need them)
       groups[0].shapes = false;
-      groups.push(Group { enums: vec![], depth: 4, shapes: true, gen_consumer_only: false, crashes: 0, inject: false, max_roots: Some(2), faulty: false, slice: None, families: false, staged: None });
-      if quick { groups[0].depth = 4; groups[1] = Group { enums: vec![s(3, 2, 2)], depth: 4, shapes: false, gen_consumer_only: false, crashes: 0, inject: false, max_roots: None, faulty: false, slice: None, families: false, staged: None }; }
+      groups.push(Group { enums: vec![], depth: 4, shapes: true, gen_consumer_only: false, crashes: 0, inject: false, max_roots: Some(2), faulty: false, slice: None, families: false, staged: None, direct: false });
+      if quick { groups[0].depth = 4; groups[1] = Group { enums: vec![s(3, 2, 2)], depth: 4, shapes: false, gen_consumer_only: false, crashes: 0, inject: false, max_roots: None, faulty: false, slice: None, families: false, staged: None, direct: false }; }
       // coarse read checkers next to exact ones on one task (a reported change that one checker ignores and another sees)
-      groups.push(Group { enums: vec![rich(2, 2, 2)], depth: 5, shapes: false, gen_consumer_only: false, crashes: 0, inject: false, max_roots: None, faulty: false, slice: None, families: false, staged: None });
-      if !quick { groups.push(Group { enums: vec![s(2, 2, 5)], depth: 3, shapes: false, gen_consumer_only: true, crashes: 0, inject: false, max_roots: None, faulty: false, slice: None, families: false, staged: None }); }
+      groups.push(Group { enums: vec![rich(2, 2, 2)], depth: 5, shapes: false, gen_consumer_only: false, crashes: 0, inject: false, max_roots: None, faulty: false, slice: None, families: false, staged: None, direct: false });
+      if !quick { groups.push(Group { enums: vec![s(2, 2, 5)], depth: 3, shapes: false, gen_consumer_only: true, crashes: 0, inject: false, max_roots: None, faulty: false, slice: None, families: false, staged: None, direct: false }); }
       // (the require-structure family first: it is a subset of the next group and must keep its own, deeper, bound)
-      groups.push(Group { enums: vec![if quick { nw(3, 1, 4) } else { nw(3, 1, 5) }], depth: 4, shapes: false, gen_consumer_only: false, crashes: 0, inject: false, max_roots: Some(2), faulty: false, slice: None, families: false, staged: None });
+      groups.push(Group { enums: vec![if quick { nw(3, 1, 4) } else { nw(3, 1, 5) }], depth: 4, shapes: false, gen_consumer_only: false, crashes: 0, inject: false, max_roots: Some(2), faulty: false, slice: None, families: false, staged: None, direct: false });
       // three tasks, one resource: a task with two dependents of different kinds (requirer + dynamic requirer / reader)
-      groups.push(Group { enums: vec![{ let mut e = s(3, 1, 4); e.guard_vals = vec![1]; e.srcs = vec![Src::Acc]; e }], depth: if quick { 3 } else { 4 }, shapes: false, gen_consumer_only: false, crashes: 0, inject: false, max_roots: Some(2), faulty: false, slice: None, families: false, staged: None });
+      groups.push(Group { enums: vec![{ let mut e = s(3, 1, 4); e.guard_vals = vec![1]; e.srcs = vec![Src::Acc]; e }], depth: if quick { 3 } else { 4 }, shapes: false, gen_consumer_only: false, crashes: 0, inject: false, max_roots: Some(2), faulty: false, slice: None, families: false, staged: None, direct: false });
       // coarse write checkers: only the checker-relative oracles apply there (no from-scratch content comparison)
-      groups.push(Group { enums: vec![cw(2, 2, 4)], depth: 4, shapes: false, gen_consumer_only: true, crashes: 0, inject: false, max_roots: None, faulty: false, slice: None, families: false, staged: None });
-      if !quick { groups.push(Group { enums: vec![nw(4, 1, 5)], depth: 4, shapes: false, gen_consumer_only: false, crashes: 0, inject: false, max_roots: None, faulty: false, slice: None, families: false, staged: None }); }
-      groups.push(Group { enums: vec![if quick { sf(4, 2) } else { sf(4, 3) }], depth: 4, shapes: false, gen_consumer_only: false, crashes: 0, inject: false, max_roots: Some(2), faulty: false, slice: None, families: false, staged: None });
+      groups.push(Group { enums: vec![cw(2, 2, 4)], depth: 4, shapes: false, gen_consumer_only: true, crashes: 0, inject: false, max_roots: None, faulty: false, slice: None, families: false, staged: None, direct: false });
+      if !quick { groups.push(Group { enums: vec![nw(4, 1, 5)], depth: 4, shapes: false, gen_consumer_only: false, crashes: 0, inject: false, max_roots: None, faulty: false, slice: None, families: false, staged: None, direct: false }); }
+      groups.push(Group { enums: vec![if quick { sf(4, 2) } else { sf(4, 3) }], depth: 4, shapes: false, gen_consumer_only: false, crashes: 0, inject: false, max_roots: Some(2), faulty: false, slice: None, families: false, staged: None, direct: false });
       // order family: creation orders / topological ranks set up by a first stage of top-down builds
-      groups.push(Group { enums: vec![], depth: if quick { 2 } else { 3 }, shapes: false, gen_consumer_only: false, crashes: 0, inject: false, max_roots: Some(1), faulty: false, slice: None, families: false, staged: Some(if quick { 4 } else { 5 }) });
+      groups.push(Group { enums: vec![], depth: if quick { 2 } else { 3 }, shapes: false, gen_consumer_only: false, crashes: 0, inject: false, max_roots: Some(1), faulty: false, slice: None, families: false, staged: Some(if quick { 4 } else { 5 }), direct: false });
       if !quick { groups[0].depth = 5; groups[1].depth = 4; groups[2].depth = 3; }
     }
     Prop::C05 | Prop::C06 | Prop::C07 | Prop::C20 => {
@@ -380,18 +382,20 @@ pub fn run(args: &Args) -> i32 {
       if prop == Prop::C20 { cfg.keep_session = true; }
       if quick { groups[0].depth = 4; }
       // injected violations: one new one-statement task added to every well-formed generator/consumer program
-      groups.push(Group { enums: vec![s(2, 2, if quick { 3 } else { 4 })], depth: 4, shapes: true, gen_consumer_only: true, crashes: 0, inject: true, max_roots: None, faulty: false, slice: None, families: false, staged: None });
+      groups.push(Group { enums: vec![s(2, 2, if quick { 3 } else { 4 })], depth: 4, shapes: true, gen_consumer_only: true, crashes: 0, inject: true, max_roots: None, faulty: false, slice: None, families: false, staged: None, direct: false });
       if prop == Prop::C05 || prop == Prop::C06 {
         // declared writes whose stamp fails at declaration time (fault events SetFail): the violation must still abort
         cfg.set_fail = true; cfg.stamp_fail = true;
-        groups.push(Group { enums: vec![{ let mut e = s(2, 2, 3); e.ocs = vec![OC::PieAlways]; e.write_decl = true; e.write_rcs = vec![RC::Faulty]; e.srcs = vec![Src::One]; e }], depth: if quick { 3 } else { 4 }, shapes: false, gen_consumer_only: false, crashes: 0, inject: false, max_roots: None, faulty: false, slice: None, families: false, staged: None });
+        groups.push(Group { enums: vec![{ let mut e = s(2, 2, 3); e.ocs = vec![OC::PieAlways]; e.write_decl = true; e.write_rcs = vec![RC::Faulty]; e.srcs = vec![Src::One]; e }], depth: if quick { 3 } else { 4 }, shapes: false, gen_consumer_only: false, crashes: 0, inject: false, max_roots: None, faulty: false, slice: None, families: false, staged: None, direct: false });
+        // declared writes whose content was produced without `create_writer` (written by other means, then `written_to`)
+        groups.push(Group { enums: vec![{ let mut e = s(2, 2, 3); e.ocs = vec![OC::PieAlways]; e.write_decl = true; e.srcs = vec![Src::One]; e }], depth: if quick { 3 } else { 4 }, shapes: false, gen_consumer_only: false, crashes: 0, inject: false, max_roots: None, faulty: false, slice: None, families: false, staged: None, direct: true });
         // a task that reads a resource and also writes it, next to another reader / writer of that resource
-        groups.push(Group { enums: vec![s(2, 2, 3)], depth: if quick { 3 } else { 5 }, shapes: false, gen_consumer_only: false, crashes: 0, inject: false, max_roots: None, faulty: false, slice: Some(Slice::WfOrViolOrSelfConflict), families: false, staged: None });
-        groups.push(Group { enums: vec![{ let mut e = s(2, 2, 4); e.ocs = vec![OC::PieAlways]; e.guards = false; e }], depth: if quick { 3 } else { 4 }, shapes: false, gen_consumer_only: true, crashes: 0, inject: false, max_roots: None, faulty: false, slice: Some(Slice::WfOrViolOrSelfConflict), families: false, staged: None });
+        groups.push(Group { enums: vec![s(2, 2, 3)], depth: if quick { 3 } else { 5 }, shapes: false, gen_consumer_only: false, crashes: 0, inject: false, max_roots: None, faulty: false, slice: Some(Slice::WfOrViolOrSelfConflict), families: false, staged: None, direct: false });
+        groups.push(Group { enums: vec![{ let mut e = s(2, 2, 4); e.ocs = vec![OC::PieAlways]; e.guards = false; e }], depth: if quick { 3 } else { 4 }, shapes: false, gen_consumer_only: true, crashes: 0, inject: false, max_roots: None, faulty: false, slice: Some(Slice::WfOrViolOrSelfConflict), families: false, staged: None, direct: false });
       }
       // require-structure family (value-dependent cycles of length up to 3, cycles appearing in later sessions)
       if prop == Prop::C07 || prop == Prop::C20 {
-        groups.push(Group { enums: vec![if quick { nw(3, 1, 4) } else { nw(3, 1, 5) }], depth: 4, shapes: false, gen_consumer_only: false, crashes: 0, inject: false, max_roots: None, faulty: false, slice: None, families: false, staged: None });
+        groups.push(Group { enums: vec![if quick { nw(3, 1, 4) } else { nw(3, 1, 5) }], depth: 4, shapes: false, gen_consumer_only: false, crashes: 0, inject: false, max_roots: None, faulty: false, slice: None, families: false, staged: None, direct: false });
       }
     }
     Prop::C08 => {
@@ -401,7 +405,7 @@ pub fn run(args: &Args) -> i32 {
       let mut e = EnumCfg::structural(if quick { 1 } else { 2 }, 1, if quick { 2 } else { 3 });
       e.read_rcs = vec![RC::Exact, RC::Exists];
       e.ocs = vec![OC::Equals, OC::IsZero];
-      groups.push(Group { enums: vec![e], depth: if quick { 5 } else { 6 }, shapes: false, gen_consumer_only: false, crashes: 0, inject: false, max_roots: None, faulty: false, slice: None, families: false, staged: None });
+      groups.push(Group { enums: vec![e], depth: if quick { 5 } else { 6 }, shapes: false, gen_consumer_only: false, crashes: 0, inject: false, max_roots: None, faulty: false, slice: None, families: false, staged: None, direct: false });
     }
     Prop::C09 => {
       cfg.bu_pre = true; cfg.bu_twice = true; cfg.bu_split = true; cfg.bu_then = true;
@@ -410,7 +414,7 @@ pub fn run(args: &Args) -> i32 {
       e.read_rcs = vec![RC::Exact, RC::Exists, RC::Always];
       e.write_rcs = vec![RC::Exact, RC::Exists, RC::Always];
       e.write_decl = true;
-      groups.push(Group { enums: vec![e], depth: if quick { 5 } else { 6 }, shapes: false, gen_consumer_only: false, crashes: 0, inject: false, max_roots: None, faulty: false, slice: None, families: false, staged: None });
+      groups.push(Group { enums: vec![e], depth: if quick { 5 } else { 6 }, shapes: false, gen_consumer_only: false, crashes: 0, inject: false, max_roots: None, faulty: false, slice: None, families: false, staged: None, direct: false });
     }
     Prop::C18 => { cfg.set_fail = true; map_faulty = true; }
     Prop::C19 => {
@@ -419,7 +423,7 @@ pub fn run(args: &Args) -> i32 {
       let ncr = if quick { 1 } else { 2 };
       let mut e = EnumCfg::structural(2, 1, if quick { 3 } else { 4 });
       e.panic_op = true;
-      let g = |enums: Vec<EnumCfg>, depth: usize, shapes: bool, crashes: usize| Group { enums, depth, shapes, gen_consumer_only: false, crashes, inject: false, max_roots: None, faulty: false, slice: None, families: false, staged: None };
+      let g = |enums: Vec<EnumCfg>, depth: usize, shapes: bool, crashes: usize| Group { enums, depth, shapes, gen_consumer_only: false, crashes, inject: false, max_roots: None, faulty: false, slice: None, families: false, staged: None, direct: false };
       groups = if quick {
         vec![
           // every crash point of every build transition (+ program panics + diagnosed aborts), follow-ups to depth 4
@@ -433,34 +437,34 @@ pub fn run(args: &Args) -> i32 {
     }
     Prop::C16 => {
       cfg.collect_digests = true; slice = Slice::WfOrViol; cfg.bu_then = true;
-      if quick { groups.truncate(2); groups[0].depth = 4; groups[1].depth = 3; } else { groups.truncate(2); groups[0] = Group { enums: vec![s(2, 2, 4)], depth: 4, shapes: true, gen_consumer_only: false, crashes: 0, inject: false, max_roots: None, faulty: false, slice: None, families: false, staged: None }; groups[1] = Group { enums: vec![s(3, 2, 3)], depth: 4, shapes: false, gen_consumer_only: false, crashes: 0, inject: false, max_roots: None, faulty: false, slice: None, families: false, staged: None }; }
+      if quick { groups.truncate(2); groups[0].depth = 4; groups[1].depth = 3; } else { groups.truncate(2); groups[0] = Group { enums: vec![s(2, 2, 4)], depth: 4, shapes: true, gen_consumer_only: false, crashes: 0, inject: false, max_roots: None, faulty: false, slice: None, families: false, staged: None, direct: false }; groups[1] = Group { enums: vec![s(3, 2, 3)], depth: 4, shapes: false, gen_consumer_only: false, crashes: 0, inject: false, max_roots: None, faulty: false, slice: None, families: false, staged: None, direct: false }; }
       // several failing checkers in one session (the reported errors and their order are part of the trace)
       cfg.set_fail = true;
-      groups.push(Group { enums: vec![s(2, 2, if quick { 2 } else { 3 })], depth: if quick { 4 } else { 5 }, shapes: false, gen_consumer_only: false, crashes: 0, inject: false, max_roots: None, faulty: true, slice: Some(Slice::Wf), families: false, staged: None });
+      groups.push(Group { enums: vec![s(2, 2, if quick { 2 } else { 3 })], depth: if quick { 4 } else { 5 }, shapes: false, gen_consumer_only: false, crashes: 0, inject: false, max_roots: None, faulty: true, slice: Some(Slice::Wf), families: false, staged: None, direct: false });
       // queue order with several scheduled tasks (the order must come from topological ranks, not from set iteration)
-      groups.push(Group { enums: vec![if quick { sf(4, 2) } else { sf(4, 3) }], depth: if quick { 3 } else { 4 }, shapes: false, gen_consumer_only: false, crashes: 0, inject: false, max_roots: Some(2), faulty: false, slice: None, families: false, staged: None });
+      groups.push(Group { enums: vec![if quick { sf(4, 2) } else { sf(4, 3) }], depth: if quick { 3 } else { 4 }, shapes: false, gen_consumer_only: false, crashes: 0, inject: false, max_roots: Some(2), faulty: false, slice: None, families: false, staged: None, direct: false });
     }
     Prop::C17 => { slice = Slice::WfOrViol; cfg.bu_then = true; crate::runner::set_helper_mode_global(true);
       cfg.set_fail = true;
       if quick { groups.truncate(2); groups[0].depth = 4; groups[1].depth = 3; } else { groups[0].depth = 5; groups[1].depth = 4; }
       // failing checkers: start/end discipline around dependency checks that return an error
-      groups.push(Group { enums: vec![s(2, 2, if quick { 2 } else { 3 })], depth: 4, shapes: true, gen_consumer_only: false, crashes: 0, inject: false, max_roots: None, faulty: true, slice: None, families: false, staged: None });
+      groups.push(Group { enums: vec![s(2, 2, if quick { 2 } else { 3 })], depth: 4, shapes: true, gen_consumer_only: false, crashes: 0, inject: false, max_roots: None, faulty: true, slice: None, families: false, staged: None, direct: false });
     }
     _ => {}
   }
   if (!quick || std::env::var("VERIF_FAMILIES").is_ok()) && !matches!(prop, Prop::C03 | Prop::C04 | Prop::C18 | Prop::C19) {
     // the order family (staged exploration) for the other history properties as well (C03/C04 have it in both tiers)
-    groups.push(Group { enums: vec![], depth: 2, shapes: false, gen_consumer_only: false, crashes: 0, inject: false, max_roots: Some(1), faulty: false, slice: None, families: false, staged: Some(4) });
+    groups.push(Group { enums: vec![], depth: 2, shapes: false, gen_consumer_only: false, crashes: 0, inject: false, max_roots: Some(1), faulty: false, slice: None, families: false, staged: Some(4), direct: false });
   }
   if !quick || std::env::var("VERIF_FAMILIES").is_ok() {
-    groups.push(Group { enums: vec![], depth: 4, shapes: false, gen_consumer_only: false, crashes: 0, inject: false, max_roots: Some(2), faulty: false, slice: None, families: true, staged: None });
+    groups.push(Group { enums: vec![], depth: 4, shapes: false, gen_consumer_only: false, crashes: 0, inject: false, max_roots: Some(2), faulty: false, slice: None, families: true, staged: None, direct: false });
   }
   if crash_group {
     // Histories with one aborted build (crash decoration at every crash point) over the smallest programs: what was
     // built before on the instance includes builds that did not finish.
-    groups.push(Group { enums: vec![s(2, 2, if quick { 2 } else { 3 })], depth: if quick { 4 } else { 5 }, shapes: true, gen_consumer_only: false, crashes: 1, inject: false, max_roots: None, faulty: false, slice: None, families: false, staged: None });
+    groups.push(Group { enums: vec![s(2, 2, if quick { 2 } else { 3 })], depth: if quick { 4 } else { 5 }, shapes: true, gen_consumer_only: false, crashes: 1, inject: false, max_roots: None, faulty: false, slice: None, families: false, staged: None, direct: false });
     // one resource, one statement more, one step deeper: abort, change, rebuild, change back, rebuild
-    groups.push(Group { enums: vec![s(2, 1, if quick { 3 } else { 4 })], depth: if quick { 5 } else { 6 }, shapes: false, gen_consumer_only: false, crashes: 1, inject: false, max_roots: Some(1), faulty: false, slice: None, families: false, staged: None });
+    groups.push(Group { enums: vec![s(2, 1, if quick { 3 } else { 4 })], depth: if quick { 5 } else { 6 }, shapes: false, gen_consumer_only: false, crashes: 1, inject: false, max_roots: Some(1), faulty: false, slice: None, families: false, staged: None, direct: false });
   }
   // Experiment overrides (not used by the registered commands).
   if let Ok(e) = std::env::var("VERIF_GROUPS") {
@@ -468,7 +472,7 @@ pub fn run(args: &Args) -> i32 {
     let base = groups[0].enums[0].clone();
     groups = e.split(';').filter_map(|g| {
       let (d, en) = g.split_once(':')?;
-      Some(Group { enums: en.split('+').filter_map(|t| parse_enum(&base, t)).collect(), depth: d.parse().ok()?, shapes: true, gen_consumer_only: false, crashes: 0, inject: false, max_roots: None, faulty: false, slice: None, families: false, staged: None })
+      Some(Group { enums: en.split('+').filter_map(|t| parse_enum(&base, t)).collect(), depth: d.parse().ok()?, shapes: true, gen_consumer_only: false, crashes: 0, inject: false, max_roots: None, faulty: false, slice: None, families: false, staged: None, direct: false })
     }).collect();
   }
   if let Ok(w) = std::env::var("VERIF_WALL") { if let Ok(w) = w.parse() { cfg.wall_cap = w; } }
@@ -503,7 +507,7 @@ pub fn run(args: &Args) -> i32 {
       programs_for(&g.enums, gslice, g.shapes, &gfilter)
     };
     // a program explored in an earlier (deeper) group is not explored again
-    if g.crashes == 0 && !g.faulty { programs.retain(|(p, _)| !all_programs.iter().any(|(q, _)| q == p)); }
+    if g.crashes == 0 && !g.faulty && !g.direct { programs.retain(|(p, _)| !all_programs.iter().any(|(q, _)| q == p)); }
     if map_faulty || g.faulty {
       // C18 (and one group of C17): every resource dependency uses the error-injecting checker (= Exact while its failure flag is clear).
       for (p, cl) in programs.iter_mut() {
@@ -526,6 +530,7 @@ pub fn run(args: &Args) -> i32 {
     gcfg.depth = g.depth;
     if g.crashes > 0 { gcfg.crashes = g.crashes; }
     if let Some(m) = g.max_roots { gcfg.max_roots = m; }
+    gcfg.decl_direct = g.direct;
     if let Some(d1) = g.staged {
       // second stage: plain events only (the decorated bottom-up variants are explored by the unstaged groups)
       gcfg.stage1 = d1; gcfg.bu_then = false; gcfg.bu_pre = false; gcfg.bu_over_report = false; gcfg.bu_twice = false; gcfg.bu_split = false; gcfg.keep_session = false;
@@ -535,12 +540,12 @@ pub fn run(args: &Args) -> i32 {
     let gs = run_programs(&mut rep, &gcfg, programs.clone(), threads());
     group_desc.push(json!({
       "enumerations": if g.staged.is_some() { vec![format!("order family (4 tasks, mode resource r1): staged exploration, first stage (Set r1 / TopDown one root) to depth {}, then every sequence of up to {} events of the full plain alphabet from every first-stage state", g.staged.unwrap(), g.depth)] } else if g.families { vec!["template families: diamond over a generator, two generators/one consumer, generator switching its target, selector over a shared dependency".to_string()] } else { g.enums.iter().map(|c| c.describe()).collect::<Vec<_>>() }, "shape_programs": g.shapes, "history_depth": g.depth,
-      "only_generator_consumer_programs": g.gen_consumer_only, "one_statement_task_injected_into_each": g.inject, "crashes_per_history": gcfg.crashes, "max_roots_per_session": gcfg.max_roots, "wall_s": gstart.elapsed().as_secs_f64(),
+      "declared_writes_bypass_create_writer": g.direct, "only_generator_consumer_programs": g.gen_consumer_only, "one_statement_task_injected_into_each": g.inject, "crashes_per_history": gcfg.crashes, "max_roots_per_session": gcfg.max_roots, "wall_s": gstart.elapsed().as_secs_f64(),
       "programs": gs.programs, "states": gs.states, "transitions": gs.transitions,
       "programs_to_fixed_point": gs.fixed_point_programs, "programs_cut_at_depth": gs.depth_capped_programs, "wall_cap_hit": gs.wall_capped,
     }));
     stats.merge(&gs);
-    if g.crashes == 0 && !g.faulty { all_programs.extend(programs); }
+    if g.crashes == 0 && !g.faulty && !g.direct { all_programs.extend(programs); }
   }
   cfg.depth = groups.iter().map(|g| g.depth).max().unwrap_or(0);
   // C16, child mode: only write the per-history digests for the parent to compare.
@@ -583,7 +588,7 @@ fn replay(args: &Args, prop: Prop, file: &std::path::Path, mut rep: Report) -> i
   let class = classify(&prog);
   let cfg = HistCfg {
     prop, max_roots: 3, bottom_up: true, bu_then: true, bu_pre: true, bu_over_report: true, bu_twice: true, bu_split: true, keep_session: true, set_fail: true, crashes: 2, depth: path.len(),
-    state_cap: 0, probe: prop == Prop::C03, scope_in_key: true, wall_cap: 60.0, collect_digests: false, find_path_hash: None, stamp_fail: false, stage1: 0,
+    state_cap: 0, probe: prop == Prop::C03, scope_in_key: true, wall_cap: 60.0, collect_digests: false, find_path_hash: None, stamp_fail: false, stage1: 0, decl_direct: false,
   };
   install();
   let crashes = path.iter().filter(|p| p.crash_at.is_some()).count();
